@@ -4,15 +4,19 @@
 // Child module of arrow-string/src/predicate.rs: the non-regex LIKE / ILIKE strategies.
 use super::*;
 
-fn naive_memchr3(a: u8, b: u8, c: u8, h: &[u8]) -> Option<usize> {
+// contains_like_pattern is `memchr3(b'%', b'_', b'\\', bytes).is_some()`; the memchr crate selects its SIMD
+// routine through CPU feature detection (inline assembly, which Kani rejects), and stubbing memchr::memchr3
+// itself did not take effect for the cross-crate inlined body, so the one-line wrapper is replaced instead
+fn naive_contains_like_pattern(pattern: &str) -> bool {
+    let h = pattern.as_bytes();
     let mut i = 0;
     while i < h.len() {
-        if h[i] == a || h[i] == b || h[i] == c {
-            return Some(i);
+        if h[i] == b'%' || h[i] == b'_' || h[i] == b'\\' {
+            return true;
         }
         i += 1;
     }
-    None
+    false
 }
 
 fn stub_regex_like(_p: &str, _ci: bool) -> Result<Regex, ArrowError> {
@@ -55,16 +59,7 @@ fn like_ref(p: &[u8], s: &[u8], fuel: u32) -> bool {
 
 const ALPHA: [u8; 5] = [b'%', b'_', b'\\', b'a', b'b'];
 
-//@ tier: quick
-//@ functions: arrow_string::predicate::{Predicate::like, Predicate::evaluate, contains_like_pattern, starts_with, ends_with, equals_kernel}
-//@ bound: ASCII pattern and haystack of 0..=3 symbols over the alphabet {% _ \ a b}: whenever Predicate::like selects a non-regex strategy (Eq, StartsWith, EndsWith, Contains) its verdict on the haystack equals a naive backtracking LIKE matcher; patterns classified as Regex are NOT checked (the regex compiler is not executed); unwind 6
-//@ stub: memchr::memchr3 -> naive loop (SIMD/inline asm); regex_like -> Err; Predicate::contains -> marker variant carrying the needle, evaluated by naive substring search in the harness
-#[kani::proof]
-#[kani::unwind(6)]
-#[kani::stub(memchr::memchr3, naive_memchr3)]
-#[kani::stub(regex_like, stub_regex_like)]
-#[kani::stub(Predicate::contains, stub_contains)]
-fn c20_like_fast_paths_match_definition() {
+fn like_model(maxp: usize, maxs: usize) {
     let mut pb = [0u8; 3];
     let mut sb = [0u8; 3];
     let mut i = 0;
@@ -78,9 +73,9 @@ fn c20_like_fast_paths_match_definition() {
         i += 1;
     }
     let pl: usize = kani::any();
-    kani::assume(pl <= 3);
+    kani::assume(pl <= maxp);
     let sl: usize = kani::any();
-    kani::assume(sl <= 3);
+    kani::assume(sl <= maxs);
     let pat = unsafe { std::str::from_utf8_unchecked(&pb[..pl]) };
     let hay = unsafe { std::str::from_utf8_unchecked(&sb[..sl]) };
     let pred = Predicate::like(pat);
@@ -89,9 +84,9 @@ fn c20_like_fast_paths_match_definition() {
         match p {
             Predicate::Eq(_) | Predicate::StartsWith(_) | Predicate::EndsWith(_) => {
                 assert!(p.evaluate(hay) == want, "fast path agrees with the LIKE definition");
-                kani::cover!(matches!(p, Predicate::StartsWith(_)) && want && sl == 3 && pl == 2);
-                kani::cover!(matches!(p, Predicate::EndsWith(_)) && !want && sl == 3);
-                kani::cover!(matches!(p, Predicate::Eq(_)) && want && pl == 3);
+                kani::cover!(matches!(p, Predicate::StartsWith(_)) && want && sl == 2 && pl == 2);
+                kani::cover!(matches!(p, Predicate::EndsWith(_)) && !want && sl == 2);
+                kani::cover!(matches!(p, Predicate::Eq(_)) && want && pl == 2);
             }
             Predicate::IEqAscii(needle) => {
                 let n = needle.as_bytes();
@@ -115,12 +110,41 @@ fn c20_like_fast_paths_match_definition() {
                     k += 1;
                 }
                 assert!(found == want, "%needle% means substring containment");
-                kani::cover!(found && n.len() == 1 && sl == 3);
+                kani::cover!(found && sl == 2);
             }
             _ => {}
         }
     }
     std::mem::forget(pred);
+}
+
+
+//@ tier: quick
+//@ timeout: 900
+//@ functions: arrow_string::predicate::{Predicate::like, Predicate::evaluate, contains_like_pattern, starts_with, ends_with, equals_kernel}
+//@ bound: ASCII pattern of 0..=2 and haystack of 0..=2 symbols over the alphabet {% _ \\ a b}: whenever Predicate::like selects a non-regex strategy (Eq, StartsWith, EndsWith, Contains) its verdict on the haystack equals a naive backtracking LIKE matcher; patterns classified as Regex are NOT checked (the regex compiler is not executed); unwind 6
+//@ stub: contains_like_pattern (= memchr3 for % _ \\) -> naive byte scan (the memchr crate's CPU feature detection is inline asm); regex_like -> Err; Predicate::contains -> marker variant carrying the needle, evaluated by naive substring search in the harness
+#[kani::proof]
+#[kani::unwind(6)]
+#[kani::stub(contains_like_pattern, naive_contains_like_pattern)]
+#[kani::stub(regex_like, stub_regex_like)]
+#[kani::stub(Predicate::contains, stub_contains)]
+fn c20_like_fast_paths_len2() {
+    like_model(2, 2);
+}
+
+//@ tier: thorough
+//@ timeout: 3000
+//@ functions: arrow_string::predicate::{Predicate::like, Predicate::evaluate}
+//@ bound: as c20_like_fast_paths_len2 with patterns and haystacks of 0..=3 symbols; unwind 6
+//@ stub: contains_like_pattern -> naive byte scan; regex_like -> Err; Predicate::contains -> marker variant
+#[kani::proof]
+#[kani::unwind(6)]
+#[kani::stub(contains_like_pattern, naive_contains_like_pattern)]
+#[kani::stub(regex_like, stub_regex_like)]
+#[kani::stub(Predicate::contains, stub_contains)]
+fn c20_like_fast_paths_wide3() {
+    like_model(3, 3);
 }
 
 //@ tier: quick
